@@ -103,4 +103,88 @@ theorem scaledWith_eq (z a0 v : Int) (hz0 : 0 ≤ z) (hz : z < 8388608) (hza : z
     have : Int.tdiv 256 a0 = 256 / a0 := Int.tdiv_eq_ediv_of_nonneg (by decide)
     simp [this]
 
+/-! ### Negative design sizes (outside TeX): where the Rust code still computes -/
+
+theorem tdiv_neg_bounds (x k : Int) (hx : x ≤ 0) (hk : 0 < k) : x ≤ Int.tdiv x k ∧ Int.tdiv x k ≤ 0 := by
+  have e : Int.tdiv x k = -((-x) / k) := by
+    have := Int.neg_tdiv (-x) k
+    rw [Int.neg_neg] at this
+    rw [this, Int.tdiv_eq_ediv_of_nonneg (by omega)]
+  rw [e]
+  have h1 : 0 ≤ (-x) / k := Int.ediv_nonneg (by omega) (by omega)
+  have h2 : (-x) / k ≤ -x := Int.ediv_le_self _ (by omega)
+  omega
+
+theorem mul_byte_bounds_neg (z d : Int) (hz0 : z ≤ 0) (hz : -8388608 ≤ z) (hd0 : 0 ≤ d) (hd : d ≤ 255) :
+    -8388608 * 255 ≤ z * d ∧ z * d ≤ 0 := by
+  have h1 : z * 255 ≤ z * d := by
+    have := Int.mul_le_mul_of_nonneg_left hd (show 0 ≤ -z by omega)
+    rw [Int.neg_mul, Int.neg_mul] at this
+    omega
+  have h2 : z * d ≤ 0 := Int.mul_nonpos_of_nonpos_of_nonneg hz0 hd0
+  omega
+
+/-- For `−128pt ≤ design size < 0` (z in `[−2^23, 0]`) and a legal word no overflow check fires. -/
+theorem toScaled_neg_defined (v ds : Int) (hds0 : -134217728 ≤ ds) (hds1 : ds < 0)
+    (h0 : -16777216 ≤ v) (h1 : v < 16777216) : (toScaled v ds).isSome = true := by
+  obtain ⟨hz1, hz0⟩ := tdiv_neg_bounds ds 16 (by omega) (by decide)
+  have hzlo : -8388608 ≤ Int.tdiv ds 16 := by
+    have e : Int.tdiv ds 16 = -((-ds) / 16) := by
+      have := Int.neg_tdiv (-ds) 16
+      rw [Int.neg_neg] at this
+      rw [this, Int.tdiv_eq_ediv_of_nonneg (by omega)]
+    rw [e]; omega
+  simp only [toScaled]
+  generalize Int.tdiv ds 16 = z at hz0 hzlo ⊢
+  have hh : halve 32 z 16 = (z, 16) := by
+    have : ¬ z ≥ 8388608 := by omega
+    simp [halve, this]
+  have hb := beBytes_bounds v
+  have hA := beBytes_a v h0 h1
+  simp only [hh, scaledWith]
+  generalize beBytes v = q at hb hA ⊢
+  obtain ⟨a, b, c, d⟩ := q
+  simp only at hb hA ⊢
+  obtain ⟨b0, b1, c0, c1, d0, d1, _⟩ := hb
+  obtain ⟨hd0, hd1⟩ := mul_byte_bounds_neg z d hz0 hzlo d0 d1
+  obtain ⟨hc0, hc1⟩ := mul_byte_bounds_neg z c hz0 hzlo c0 c1
+  obtain ⟨hb0, hb1⟩ := mul_byte_bounds_neg z b hz0 hzlo b0 b1
+  have e1 : chk (z * 16) = some (z * 16) := chk_ok _ (by omega) (by omega)
+  have e2 : chk (z * d) = some (z * d) := chk_ok _ (by omega) (by omega)
+  have e3 : chk (z * c) = some (z * c) := chk_ok _ (by omega) (by omega)
+  have e4 : chk (z * b) = some (z * b) := chk_ok _ (by omega) (by omega)
+  obtain ⟨p1, p2⟩ := tdiv_neg_bounds (z * d) 256 hd1 (by decide)
+  have hp1 : -8355840 ≤ Int.tdiv (z * d) 256 := by
+    have e : Int.tdiv (z * d) 256 = -((-(z * d)) / 256) := by
+      have := Int.neg_tdiv (-(z * d)) 256
+      rw [Int.neg_neg] at this
+      rw [this, Int.tdiv_eq_ediv_of_nonneg (by omega)]
+    rw [e]; omega
+  have e5 : chk (Int.tdiv (z * d) 256 + z * c) = some (Int.tdiv (z * d) 256 + z * c) :=
+    chk_ok _ (by omega) (by omega)
+  obtain ⟨q1, q2⟩ := tdiv_neg_bounds (Int.tdiv (z * d) 256 + z * c) 256 (by omega) (by decide)
+  have hq1 : -8388608 ≤ Int.tdiv (Int.tdiv (z * d) 256 + z * c) 256 := by
+    have e : Int.tdiv (Int.tdiv (z * d) 256 + z * c) 256 =
+        -((-(Int.tdiv (z * d) 256 + z * c)) / 256) := by
+      have := Int.neg_tdiv (-(Int.tdiv (z * d) 256 + z * c)) 256
+      rw [Int.neg_neg] at this
+      rw [this, Int.tdiv_eq_ediv_of_nonneg (by omega)]
+    rw [e]; omega
+  have e6 : chk (Int.tdiv (Int.tdiv (z * d) 256 + z * c) 256 + z * b) =
+      some (Int.tdiv (Int.tdiv (z * d) 256 + z * c) 256 + z * b) := chk_ok _ (by omega) (by omega)
+  obtain ⟨r1, r2⟩ := tdiv_neg_bounds (Int.tdiv (Int.tdiv (z * d) 256 + z * c) 256 + z * b) 16
+    (by omega) (by decide)
+  have e7 : chk (Int.tdiv (Int.tdiv (Int.tdiv (z * d) 256 + z * c) 256 + z * b) 16 - z * 16) =
+      some (Int.tdiv (Int.tdiv (Int.tdiv (z * d) 256 + z * c) 256 + z * b) 16 - z * 16) :=
+    chk_ok _ (by omega) (by omega)
+  have e16 : Int.tdiv 256 16 = 16 := by decide
+  simp only [e1, e2, e3, e4, e5, e6, e16, bind, Option.bind]
+  by_cases hv : v < 0
+  · simp only [hv, if_true] at hA
+    subst hA
+    simp [e7]
+  · simp only [hv, if_false] at hA
+    subst hA
+    simp
+
 end C17
